@@ -58,12 +58,28 @@ def markup_src(m: dict[str, Any]) -> str:
             return "{%" + h(f[0]) + " # " + h(f[1]) + "%}"
         return "{%" + h(f[0]) + " # " + (text or "note") + " " + h(f[1]) + "%}"
     if k == "liquid":
-        return "{%" + h(f[0]) + " liquid\n echo '" + m["lit"] + "'\n echo 'q'\n" + h(f[1]) + "%}"
+        # between the two echo lines: nothing, or lines that must vanish without taking anything else with them
+        if m.get("var") == "empty":
+            return "{%" + h(f[0]) + " liquid" + ("\n" if m["lit"] == " " else " ") + h(f[1]) + "%}"  # a liquid tag without any line
+        mid = LIQUID_MIDDLES[m.get("var", 0)]
+        return "{%" + h(f[0]) + " liquid\n echo '" + m["lit"] + "'\n" + mid + " echo 'q'\n" + h(f[1]) + "%}"
     if k == "tcomment":
         return "{#" + h(f[0]) + " note " + h(f[1]) + "#}"
     name = {"raw": "raw", "comment": "comment", "doc": "doc", "if": "if true"}[k]
     end = {"raw": "endraw", "comment": "endcomment", "doc": "enddoc", "if": "endif"}[k]
     return "{%" + h(f[0]) + " " + name + " " + h(f[1]) + "%}" + m["body"] + "{%" + h(f[2]) + " " + end + " " + h(f[3]) + "%}"
+
+
+LIQUID_MIDDLES = [
+    "",
+    " # note here\n",
+    " # first\n # two words\n #\n",
+    " comment\n echo 'hidden'\n endcomment\n",
+    " doc\n Renders a greeting.\n echo 'leak'\n enddoc\n",
+    "\n",
+    " comment\n # inside\n endcomment\n # after\n",
+    " doc\n one\n enddoc\n",
+]
 
 
 def expected(segs: list[Any]) -> list[str]:
@@ -87,7 +103,7 @@ def expected(segs: list[Any]) -> list[str]:
         if k == "out":
             outs = [o + s["lit"] for o in outs]
         elif k == "liquid":
-            outs = [o + s["lit"] + "q" for o in outs]
+            outs = [o + ("" if s.get("var") == "empty" else s["lit"] + "q") for o in outs]
         elif k == "raw":
             b = s["body"]
             variants = {b}
@@ -200,7 +216,11 @@ def markups(tc: bool, bodies: list[str], lits: list[str]):
     for k in KINDS2 + (["tcomment"] if tc else []):
         for f in itertools.product((0, 1), repeat=2):
             for lit in (lits if k in ("out", "liquid") else ["note", "EMPTY", "TIGHT", "a # b"] if k == "inline" else [""]):
-                yield {"k": k, "f": list(f), "lit": lit}
+                if k == "liquid":
+                    for var in list(range(len(LIQUID_MIDDLES))) + ["empty"]:
+                        yield {"k": k, "f": list(f), "lit": lit, "var": var}
+                else:
+                    yield {"k": k, "f": list(f), "lit": lit}
     for k in KINDS4:
         for f in itertools.product((0, 1), repeat=4):
             for b in bodies:
